@@ -42,15 +42,21 @@ def int_via_float64(v):
     return go_int64_of_float(float(v))
 
 
-_POW10 = [float("1e%d" % i) for i in range(0, 19)]
+_POW10 = [float("1e%d" % i) for i in range(0, 17)]      # fastfloat.float64pow10
+
+
+_POW10TAB = [float("1e%d" % i) for i in range(32)]
+_POW10POS32 = [float("1e%d" % (32 * i)) for i in range(10)]
+_POW10NEG32 = [float("1e-%d" % (32 * i)) for i in range(11)]
 
 
 def _pow10(e):
-    if e < -323:
-        return 0.0
-    if e > 308:
-        return math.inf
-    return float("1e%d" % e)
+    """Go's math.Pow10: a product / quotient of two table entries (not always the correctly rounded power)"""
+    if 0 <= e <= 308:
+        return _POW10POS32[e // 32] * _POW10TAB[e % 32]
+    if -323 <= e <= 0:
+        return _POW10NEG32[(-e) // 32] / _POW10TAB[(-e) % 32]
+    return 0.0 if e < 0 else math.inf
 
 
 def fastfloat_best_effort(s):
@@ -257,7 +263,7 @@ def value_text(rnd, tok):
     if tok == "F_OVERFLOW":
         return rnd.choice(["1e400", "-1e999", "1" + "0" * 400, "1.8e308"])
     if tok == "F_SPECIAL":
-        return rnd.choice(["NaN", "nan", "Inf", "-Inf", "+Inf", "inf", "infinity", "-nan"])
+        return rnd.choice(["NaN", "nan", "infinity", "-nan", "Infinity", "-Infinity", "+NaN", "NAN"])
     if tok.startswith("B_") and tok != "B_BAD":
         return tok[2:]
     if tok == "B_BAD":
@@ -268,7 +274,7 @@ def value_text(rnd, tok):
         return rnd.choice(["1.2.3", "1e", "0x10", "--1", "1-", "e5", "1e5.5", ".", "-", "+", "1e+", "..1", "1a", "١٢"])
     if tok == "N_JUNKF":
         return rnd.choice(["xyzf", "1.2.3f", "truef", "Inff", "nanf", "-f", "--1f", "1e5.5f", "-inff", "0x1f", "1ef", ".f",
-                           "12abf"])
+                           "12abf", "Inf", "-Inf", "+Inf", "inf"])
     raise vlib.Infra("unknown value token " + tok)
 
 
@@ -304,9 +310,11 @@ def sub_rng(seed, cid):
     return random.Random((seed * 1000003 + cid) * 2654435761 % (1 << 61))
 
 
-def concretise(case, cid, seed):
-    """case = {"line": [classes], "prec": p, "exp": outcome, "imp": [{"dev": [...], "out": outcome}]}"""
-    rnd = sub_rng(seed, cid)
+def concretise(case, cid, seed, rid=None):
+    """case = {"line": [classes], "prec": p, "exp": outcome, "imp": [{"dev": [...], "out": outcome}]}
+    cid is embedded in every plain / unicode text (fresh measurement); rid seeds the random choices"""
+    rid = cid if rid is None else rid
+    rnd = sub_rng(seed, rid)
     line = case["line"]
     prec = case.get("prec", "")
     mst_pos = set(case["exp"]["mst"])
@@ -328,7 +336,7 @@ def concretise(case, cid, seed):
         else:
             texts.append(value_text(rnd, c))
     body = "".join(texts[1:])
-    cc = {"id": cid, "case": case, "texts": texts, "body": body, "prec": prec}
+    cc = {"id": cid, "rid": rid, "case": case, "texts": texts, "body": body, "prec": prec}
     cc["exp"] = concrete_outcome(case["exp"], texts, prec, line)
     cc["imp"] = [{"dev": x["dev"], "out": concrete_outcome(x["out"], texts, prec, line)} for x in case.get("imp", [])]
     return cc
@@ -346,6 +354,7 @@ def concrete_outcome(out, texts, prec, line):
         return o
     o["tags"] = {join(texts, t["k"]): join(texts, t["v"]) for t in out["tags"]}
     fields, dup = {}, set()
+    used = set(out.get("used", []))           # deviations whose rule fired (structure), + those that changed a value
     for f in out["fields"]:
         k = join(texts, f["k"])
         if k in fields:
@@ -354,17 +363,25 @@ def concrete_outcome(out, texts, prec, line):
             fields[k] = ("string", join(texts, f["s"]))
             continue
         pos = f["k"][-1] + 2                  # key, "=", value token
+        if f["via"] == "ffjunk":              # everything up to position e, in front of the final f, unvalidated
+            fields[k] = ("float", fastfloat_best_effort("".join(texts[pos:f["e"] + 1])[:-1]))
+            used.add("fsuffix_unvalidated")
+            continue
         if line[pos - 1] != f["tok"]:
             raise vlib.Infra("token position mismatch: %r %r" % (line, f))
         txt = texts[pos]
         if f["t"] == "int":
             v = int(txt[:-1])
-            if f["via"] == "f64":
+            if f["via"] == "f64" and int_via_float64(v) != v:
                 v = int_via_float64(v)
+                used.add("int_via_float64")
             fields[k] = ("integer", v)
         elif f["t"] == "float":
             num = txt[:-1] if txt.endswith("f") else txt
-            v = fastfloat_best_effort(num) if f["via"] == "ff" else float(num)
+            v = None if f["tok"] == "N_JUNKF" else float(num)
+            if f["via"] == "ff" and (v is None or fbits(fastfloat_best_effort(num)) != fbits(v)):
+                v = fastfloat_best_effort(num)
+                used.add("fsuffix_unvalidated" if f["tok"] == "N_JUNKF" else "float_fastfloat")
             fields[k] = ("float", v)
         elif f["t"] == "bool":
             fields[k] = ("boolean", f["val"] == "true")
@@ -381,6 +398,9 @@ def concrete_outcome(out, texts, prec, line):
             raise vlib.Infra("timestamp token not unique: %r" % (line,))
         v = int(texts[pos[0]]) * MULT[prec]
         o["ts"] = wrap64(v) if out.get("tsvia") == "wrap" else v
+        if out.get("tsvia") == "wrap":
+            used.add("ts_mult_wraps")
+    o["used"] = sorted(used)
     return o
 
 
@@ -648,7 +668,7 @@ def judge(cc, obs, open_ids):
     for x in imps:
         ok2, _ = match(obs, x["out"])
         if ok2:
-            devs = x["dev"] if len(x["dev"]) == 1 else singles
+            devs = x["dev"] if len(x["dev"]) == 1 else (x["out"].get("used") or singles)
             ids = sorted({FINDING_OF[dv] for dv in devs})
             if ids and all(i in open_ids for i in ids):
                 return "known", ids, det
@@ -676,26 +696,322 @@ def _tlc(cfg, stats, key, timeout=1500, **kw):
     return r
 
 
+def _sample(tr, n, rnd):
+    """seeded sample of n cases: lines that are accepted by the design or by an as-implemented automaton are the
+    minority of an enumeration, they get half of the sample"""
+    if len(tr) <= n:
+        return tr
+    acc = [t for t in tr if t["exp"]["kind"] == "Accept" or any(x["out"]["kind"] == "Accept" for x in t["imp"])]
+    rej = [t for t in tr if not (t["exp"]["kind"] == "Accept" or any(x["out"]["kind"] == "Accept" for x in t["imp"]))]
+    na = min(len(acc), max(n // 2, n - len(rej)))
+    return rnd.sample(acc, na) + rnd.sample(rej, n - na)
+
+
 def gen_cases(tier, seed):
     stats = {}
     _tlc("LineProtocol.exh.%s.cfg" % tier, stats, "exh", timeout=3000)
     rnd = random.Random(seed)
-    plan = [("struct", "LineProtocol.bfs.struct.%s.cfg" % tier, 2200), ("values", "LineProtocol.bfs.values.cfg", 1300),
-            ("ts", "LineProtocol.bfs.ts.cfg", 500)]
+    plan = [("struct", "LineProtocol.bfs.struct.%s.cfg" % tier, 3000, 40000), ("values", "LineProtocol.bfs.values.cfg", 2000, 10**9),
+            ("ts", "LineProtocol.bfs.ts.cfg", 500, 10**9), ("tags", "LineProtocol.bfs.tags.cfg", 600, 10**9)]
     cases = []
-    for key, cfg, nquick in plan:
+    for key, cfg, nquick, nthorough in plan:
         r = _tlc(cfg, stats, key, workers=8)
-        tr = r["traces"]
-        if tier == "quick" and len(tr) > nquick:
-            tr = rnd.sample(tr, nquick)
+        tr = _sample(r["traces"], nquick if tier == "quick" else nthorough, rnd)
         stats[key]["replayed"] = len(tr)
         cases += [dict(t, src=key) for t in tr]
-    nsim = 120 if tier == "quick" else 2500
+    nsim = 600 if tier == "quick" else 8000
     r = _tlc("LineProtocol.sim.cfg", stats, "sim", simulate=nsim, depth=40, seed=seed)
-    tr = r["traces"]
-    nmax = 1000 if tier == "quick" else 30000
-    if len(tr) > nmax:
-        tr = rnd.sample(tr, nmax)
+    tr = _sample(r["traces"], 1500 if tier == "quick" else 20000, rnd)
     stats["sim"]["replayed"] = len(tr)
     cases += [dict(t, src="sim") for t in tr]
     return cases, stats
+
+
+# ------------------------------------------------------------------------------------------------
+# replay of single lines and batches
+
+
+def unique_mst(case):
+    return any(case["line"][i - 1] in ("P", "U") for i in case["exp"]["mst"])
+
+
+def assign_dbs(ccs, sess):
+    """every case goes to the main database when its measurement name carries the case id; measurement names made
+    of quote / equals / escaped characters only are shared by many cases: up to NLANES of them per name are kept,
+    one per lane database"""
+    seen, skipped = {}, 0
+    for cc in ccs:
+        mst = cc["exp"]["mst"]
+        if mst is None or unique_mst(cc["case"]):
+            cc["db"] = sess.dbs[0]
+            continue
+        k = seen.get(mst, 0)
+        seen[mst] = k + 1
+        if k < sess.NLANES:
+            cc["db"] = sess.dbs[1 + k]
+        else:
+            cc["db"] = None
+            skipped += 1
+    return skipped
+
+
+def observe_all(sess, ccs, extra_wanted=()):
+    """post every concrete case on its own, wait for the index, read everything back"""
+    live = [cc for cc in ccs if cc.get("db")]
+    res = sess.post_all([(cc["id"], cc["db"], cc["body"] + cc.get("eol", ""), cc["prec"]) for cc in live])
+    sess.wait_visible()
+    wanted = [(cc["id"], cc["db"], cc["exp"]["mst"]) for cc in live if cc["exp"]["mst"] is not None]
+    stored = sess.read_points(wanted + list(extra_wanted))
+    ftypes = {db: sess.field_types(db) for db in sess.dbs}
+    for cc in live:
+        st, txt, t0, t1 = res[cc["id"]]
+        mst = cc["exp"]["mst"]
+        cc["obs"] = {"status": st, "text": txt, "t0": t0, "t1": t1, "stored": stored.get(cc["id"]),
+                     "ftypes": ftypes[cc["db"]].get(mst, {}) if mst is not None else {}}
+    return stored, ftypes
+
+
+def make_batches(ccs, seed, n, next_id):
+    """batches mixing lines the single-line replay found conforming: valid ones and parse-level rejects"""
+    rnd = random.Random(seed * 7 + 5)
+    good = [cc for cc in ccs if cc.get("verdict") == "ok" and cc["exp"]["kind"] == "Accept" and cc["db"] == "c06"
+            and not cc["exp"]["amb"] and cc["exp"]["ts"] != "now"]
+    bad = [cc for cc in ccs if cc.get("verdict") == "ok" and cc["exp"]["kind"] != "Accept" and cc["db"] == "c06"
+           and cc["exp"]["mst"] is not None and unique_mst(cc["case"]) and "partial write" not in cc["obs"]["text"]
+           and cc["obs"]["status"] == 400]
+    batches = []
+    if not good or not bad:
+        return batches, next_id
+    shapes = ["GB", "BG", "GBG", "BGB", "GGB", "BBG", "GG", "BB", "GBGB"]
+    for b in range(n):
+        shape = shapes[b % len(shapes)]
+        members, prec = [], None
+        for ch in shape:
+            pool = good if ch == "G" else bad
+            if prec is not None:                 # one precision per request
+                pool = [x for x in pool if x["prec"] == prec or not any(c.startswith("TS_") for c in x["case"]["line"])]
+            if not pool:
+                break
+            src = rnd.choice(pool)
+            if any(c.startswith("TS_") for c in src["case"]["line"]):
+                prec = src["prec"]
+            m = concretise(src["case"], next_id, seed, rid=src["rid"])
+            next_id += 1
+            m["valid"] = ch == "G"
+            members.append(m)
+        if len(members) != len(shape):
+            continue
+        for m in members:
+            m["prec"] = prec or ""
+        sep = rnd.choice(["\n", "\n", "\r\n", "\n\n"])
+        tail = rnd.choice(["", "\n"])
+        batches.append({"id": "b%d" % b, "shape": shape, "members": members, "prec": prec or "",
+                        "body": sep.join(m["body"] for m in members) + tail})
+    return batches, next_id
+
+
+def judge_batch(b, open_ids):
+    """design: an invalid line makes the request fail (4xx) and stores nothing; an acknowledged request has stored
+    every valid line. As implemented (F-C06-6, batch_last_line_decides): the parse error of a line is overwritten by
+    the result of the next one, so the LAST line of the block decides: invalid -> 400 and nothing of the block is
+    stored; valid -> 204, valid lines stored, invalid ones dropped silently."""
+    st = b["status"]
+    valid = [m["valid"] for m in b["members"]]
+    stored = [m["obs"]["stored"] is not None for m in b["members"]]
+    exact = [match(m["obs"], m["exp"])[0] for m in b["members"]]
+    problems = []
+    if all(valid):
+        if not (200 <= st < 300):
+            problems.append("valid batch answered %d" % st)
+    elif 200 <= st < 300:
+        problems.append("batch with an invalid line acknowledged with %d" % st)
+    for m, v, s, e in zip(b["members"], valid, stored, exact):
+        if not v and s:
+            problems.append("invalid line stored something: %r" % m["body"])
+        if v and 200 <= st < 300 and not e:
+            problems.append("acknowledged valid line not stored exactly: %r" % m["body"])
+        if v and s and not e:
+            problems.append("valid line stored with different content: %r" % m["body"])
+    if not problems:
+        return "ok", [], ""
+    det = "; ".join(problems)
+    pred_status = 204 if valid[-1] else 400
+    pred_ok = st == pred_status and all((e if (v and pred_status == 204) else not s) for v, s, e in zip(valid, stored, exact))
+    if pred_ok and "F-C06-6" in open_ids:
+        return "known", ["F-C06-6"], det
+    return "bad", [], det
+
+
+def run_batches(sess, batches):
+    res = sess.post_all([(b["id"], "c06", b["body"], b["prec"]) for b in batches])
+    sess.wait_visible()
+    wanted = [(m["id"], "c06", m["exp"]["mst"]) for b in batches for m in b["members"]]
+    stored = sess.read_points(wanted)
+    ftypes = sess.field_types("c06")
+    for b in batches:
+        st, txt, t0, t1 = res[b["id"]]
+        b["status"], b["text"] = st, txt
+        for m in b["members"]:
+            # status 204: match() against the member's own outcome then judges the stored content only
+            m["obs"] = {"status": 204, "text": txt, "t0": t0, "t1": t1, "stored": stored.get(m["id"]),
+                        "ftypes": ftypes.get(m["exp"]["mst"], {})}
+
+
+def slim(cc):
+    return {k: cc[k] for k in ("id", "rid", "case", "body", "prec", "db") if k in cc}
+
+
+def replay_cases(cases, seed, tier, nbatches):
+    """-> summary dict"""
+    open_ids = {f["id"] for f in vlib.load_known(PROP)}
+    ccs = [concretise(c, i + 1, seed) for i, c in enumerate(cases)]
+    rnd = random.Random(seed + 11)
+    for cc in ccs:
+        cc["eol"] = "\r" if rnd.random() < 0.05 else ""       # CRLF line ends are accepted
+    sess = Session()
+    try:
+        skipped = assign_dbs(ccs, sess)
+        t0 = time.time()
+        observe_all(sess, ccs)
+        t_single = time.time() - t0
+        live = [cc for cc in ccs if cc.get("db")]
+        for cc in live:
+            cc["verdict"], cc["findings"], cc["detail"] = judge(cc, cc["obs"], open_ids)
+        # nothing but the expected measurements may exist
+        stray = []
+        for db in sess.dbs:
+            have = sess.measurements(db)
+            # (a rejected line may leave its measurement behind, empty: that one is read back like any other)
+            want = {cc["exp"]["mst"] for cc in live if cc["db"] == db}
+            for name in have - want:
+                if name.startswith("c06warm") or name.startswith("c06sentinel"):
+                    continue
+                stray.append((db, name, [cc["body"] for cc in live if name[:6] in cc["body"]][:3]))
+        batches, _ = make_batches(live, seed, nbatches, len(ccs) + 1)
+        t0 = time.time()
+        if batches:
+            run_batches(sess, batches)
+            for b in batches:
+                b["verdict"], b["findings"], b["detail"] = judge_batch(b, open_ids)
+        t_batch = time.time() - t0
+    finally:
+        sess.stop()
+    return {"ccs": ccs, "live": live, "skipped": skipped, "stray": stray, "batches": batches, "t_single": t_single,
+            "t_batch": t_batch, "open_ids": open_ids}
+
+
+def report(summary, seed):
+    """prints KNOWN-FINDING / VIOLATION lines -> (number of violations, per-finding counts, reject5xx)"""
+    live, batches = summary["live"], summary["batches"]
+    known = {}
+    for x in live + batches:
+        if x.get("verdict") == "known":
+            for fid in x["findings"]:
+                known.setdefault(fid, []).append(x)
+    for fid in sorted(known):
+        ex = known[fid][0]
+        what = repr(ex["body"])[:160]
+        print("KNOWN-FINDING: property=%s %s re-observed in %d cases, e.g. %s -> %s" % (PROP, fid, len(known[fid]), what, ex["detail"][:220]))
+    bad = [x for x in live if x["verdict"] == "bad"]
+    badb = [b for b in batches if b["verdict"] == "bad"]
+    nviol = 0
+    groups = {}
+    for x in bad:
+        groups.setdefault(re.sub(r"[0-9]+|'[^']*'|\"[^\"]*\"", "#", x["detail"])[:80], []).append(x)
+    for g, xs in sorted(groups.items(), key=lambda kv: -len(kv[1])):
+        for x in xs[:2]:
+            path = vlib.save_replay(PROP, {"kind": "line", "seed": seed, "cc": slim(x), "status": x["obs"]["status"],
+                                           "answer": x["obs"]["text"][:300], "detail": x["detail"]})
+            print("VIOLATION property=%s replay=%s" % (PROP, path))
+            vlib.log("  line %r precision=%r -> %d: %s (%d alike)" % (x["body"], x["prec"], x["obs"]["status"], x["detail"], len(xs)))
+        nviol += len(xs)
+    for b in badb[:5]:
+        path = vlib.save_replay(PROP, {"kind": "batch", "seed": seed, "shape": b["shape"], "body": b["body"], "prec": b["prec"],
+                                       "members": [dict(slim(m), valid=m["valid"]) for m in b["members"]], "detail": b["detail"]})
+        print("VIOLATION property=%s replay=%s" % (PROP, path))
+        vlib.log("  batch %r -> %d: %s" % (b["body"], b["status"], b["detail"]))
+    nviol += len(badb)
+    for db, name, cand in summary["stray"][:5]:
+        path = vlib.save_replay(PROP, {"kind": "stray", "seed": seed, "db": db, "measurement": name, "candidates": cand})
+        print("VIOLATION property=%s replay=%s" % (PROP, path))
+        vlib.log("  measurement %r exists in %s although no line names it; candidates %r" % (name, db, cand))
+    nviol += len(summary["stray"])
+    r5 = [x for x in live if x["exp"]["kind"] != "Accept" and x["verdict"] == "ok" and x["obs"]["status"] >= 500]
+    if r5:
+        vlib.log("[note] %d invalid lines were rejected with a 5xx status instead of 4xx, e.g. %r -> %d %s" % (
+            len(r5), r5[0]["body"], r5[0]["obs"]["status"], r5[0]["obs"]["text"].strip()[:120]))
+    return nviol, {k: len(v) for k, v in known.items()}, len(r5)
+
+
+def run(tier, seed):
+    t0 = time.time()
+    cases, stats = gen_cases(tier, seed)
+    t_tlc = time.time() - t0
+    summary = replay_cases(cases, seed, tier, 250 if tier == "quick" else 3000)
+    nviol, known, r5 = report(summary, seed)
+    live, batches = summary["live"], summary["batches"]
+    acc = [x for x in live if x["exp"]["kind"] == "Accept"]
+    distinct = len({json.dumps(c["line"]) + c.get("prec", "") for c in cases})
+    cov = {
+        "states": stats["exh"]["distinct"], "transitions": stats["exh"]["generated"], "exhaustive": True,
+        "traces_validated_against_impl": len(live) + len(batches),
+        "samples": [{"line": x["case"]["line"], "text": x["body"], "expected": x["case"]["exp"]["kind"]} for x in (live[:1] + acc[-1:])],
+        "evaluations": len(live) + len(batches), "distinct_nontrivial": distinct,
+        "rule": "one evaluation = one concrete line (or batch) posted to /write of the real server and read back; distinct = distinct "
+                "class sequences (with precision) of LineProtocol.tla; every one decodes to a point or to Reject in the specification",
+        "tlc": stats, "lines_expected_accept": len(acc), "lines_expected_reject": len(live) - len(acc),
+        "lines_stored_and_compared": sum(1 for x in acc if x["obs"]["stored"] is not None),
+        "batches": len(batches), "batch_shapes": sorted({b["shape"] for b in batches}),
+        "batch_neighbours_dropped_with_4xx": sum(1 for b in batches if b["status"] >= 400 and any(m["valid"] and m["obs"]["stored"] is None for m in b["members"])),
+        "known_finding_cases": known, "rejected_with_5xx": r5, "skipped_nonunique_measurement": summary["skipped"],
+        "by_source": {k: sum(1 for x in live if x["case"].get("src") == k) for k in ("struct", "values", "ts", "tags", "sim")},
+        "wall_tlc_s": round(t_tlc, 1), "wall_lines_s": round(summary["t_single"], 1), "wall_batches_s": round(summary["t_batch"], 1),
+    }
+    vlib.write_evidence(PROP, tier, seed, "model_checking", cov, time.time() - t0, nviol, [
+        "TLC bounds as in the cfg files named under coverage.tlc; quick tier replays a seeded sample of the exported lines",
+        "per character class, not per code point: every class occurrence gets one of several concrete texts drawn from VERIF_SEED",
+        "single-node ts-server over HTTP (/write, /query with epoch=ns); new series judged after the index flush (sentinel polled once)",
+        "tags `\\\\` in key positions decode to one backslash (VictoriaMetrics/openGemini rule), measurement names may not contain , or \\\\",
+        "a batch answered 4xx may or may not store its valid lines (the statement does not say); an acknowledged batch must store them all",
+    ])
+    vlib.log("[c06] %d lines (%d expected valid), %d batches, tlc %.0fs, lines %.0fs, batches %.0fs, known %s, violations %d" % (
+        len(live), len(acc), len(batches), t_tlc, summary["t_single"], summary["t_batch"], known, nviol))
+    return 1 if nviol else 0
+
+
+def replay(path, seed):
+    obj = json.load(open(path))
+    open_ids = {f["id"] for f in vlib.load_known(PROP)}
+    sess = Session(threads=4)
+    try:
+        if obj["kind"] == "line":
+            old = obj["cc"]
+            cc = concretise(old["case"], old["id"], obj.get("seed", seed), rid=old.get("rid"))
+            cc["db"] = "c06"
+            observe_all(sess, [cc])
+            v, ids, det = judge(cc, cc["obs"], open_ids)
+            vlib.log("line %r precision=%r -> %d %s; stored %s" % (cc["body"], cc["prec"], cc["obs"]["status"], cc["obs"]["text"].strip()[:200],
+                                                                 json.dumps(cc["obs"]["stored"])[:400]))
+        elif obj["kind"] == "batch":
+            members = []
+            for m in obj["members"]:
+                mm = concretise(m["case"], m["id"], obj.get("seed", seed), rid=m.get("rid"))
+                mm["valid"] = m["valid"]
+                members.append(mm)
+            b = {"id": "b0", "shape": obj["shape"], "members": members, "prec": obj["prec"], "body": obj["body"]}
+            run_batches(sess, [b])
+            v, ids, det = judge_batch(b, open_ids)
+            vlib.log("batch %r -> %d %s" % (b["body"], b["status"], b["text"].strip()[:200]))
+        else:
+            print("replay of kind %r needs the whole run" % obj["kind"])
+            return 2
+    finally:
+        sess.stop()
+    if v == "bad":
+        print("VIOLATION property=%s replay=%s" % (PROP, path))
+        vlib.log(det)
+        return 1
+    if v == "known":
+        print("KNOWN-FINDING: property=%s %s %s" % (PROP, ",".join(ids), det[:300]))
+    print("replay passes")
+    return 0
